@@ -67,6 +67,17 @@ def mbqm(x, mult, shift):
     return rdp(srdhm(x * (np.int64(1) << left), mult), right)
 
 
+def mbqm64(x, mult, shift):
+    """MultiplyByQuantizedMultiplier(int64 x, int32 multiplier, int shift) of the 16x8 reference kernels: 16-bit reduced
+    multiplier, one rounding"""
+    x = np.asarray(x, dtype=np.int64)
+    mult = np.asarray(mult, dtype=np.int64)
+    shift = np.asarray(shift, dtype=np.int64)
+    red = np.where(mult < 0x7FFF0000, (mult + (1 << 15)) >> 16, 0x7FFF)
+    total = 15 - shift
+    return (x * red + (np.int64(1) << (total - 1))) >> total
+
+
 def f32(x):
     return np.float32(x)
 
@@ -215,12 +226,15 @@ class Interp:
         if len(reals) == 1:
             reals = reals * oc
         ms = [quantize_multiplier(r) for r in reals]
-        if xt.type == "INT16":
-            # int16 reference kernels use a 16-bit ("reduced") multiplier when the bias is 64 bit
-            raise Unsupported("int16 convolution reference not transcribed")
         mult_a = np.array([a for a, _ in ms], np.int64).reshape(1, 1, 1, -1)
         shift_a = np.array([b for _, b in ms], np.int64).reshape(1, 1, 1, -1)
-        y = mbqm(acc, mult_a, shift_a) + yzp
+        if xt.type == "INT16":
+            # 16x8 kernels: 64-bit accumulator and bias, 16-bit ("reduced") multiplier
+            if b_i >= 0 and self.m.tensors[b_i].type != "INT64":
+                raise Unsupported("int16 convolution with 32-bit bias")
+            y = mbqm64(acc, mult_a, shift_a) + yzp
+        else:
+            y = mbqm(acc, mult_a, shift_a) + yzp
         lo, hi = act_range(o.get("FusedActivationFunction", 0), yt.type, ys, yzp)
         self.put(op.outputs[0], np.clip(y, lo, hi), 0, [x_i])
 
@@ -240,16 +254,19 @@ class Interp:
         ws, wzp = self.scalar_q(w_i)
         ys, yzp = self.scalar_q(op.outputs[0])
         yt = self.m.tensors[op.outputs[0]]
-        if self.m.tensors[x_i].type == "INT16":
-            raise Unsupported("int16 FC")
+        int16 = self.m.tensors[x_i].type == "INT16"
+        if int16 and b_i >= 0 and self.m.tensors[b_i].type != "INT64":
+            raise Unsupported("int16 FC with 32-bit bias")
         oc, n_in = w.shape
         x2 = x.reshape(-1, n_in) - xzp
         acc = x2 @ (w - wzp).T
         if b_i >= 0:
             acc = acc + self.get(b_i).reshape(1, -1)
         real = float(np.float64(np.float32(np.float32(xs) * np.float32(ws))) / np.float64(np.float32(ys)))
+        if int16:
+            real = float(np.float64(np.float32(xs)) * np.float64(np.float32(ws)) / np.float64(np.float32(ys)))
         m_, s_ = quantize_multiplier(real)
-        y = mbqm(acc, m_, s_) + yzp
+        y = (mbqm64(acc, m_, s_) if int16 else mbqm(acc, m_, s_)) + yzp
         lo, hi = act_range(o.get("FusedActivationFunction", 0), yt.type, ys, yzp)
         self.put(op.outputs[0], np.clip(y, lo, hi).reshape(yt.shape), 0, [x_i])
 
@@ -304,12 +321,17 @@ class Interp:
         a_i, b_i = op.inputs
         a, b = self.get(a_i), self.get(b_i)
         t = self.m.tensors[a_i].type
-        if t not in ("INT8", "UINT8"):
+        if t not in ("INT8", "UINT8", "INT16"):
             raise Unsupported("add/sub " + t)
         s1, z1 = self.scalar_q(a_i)
         s2, z2 = self.scalar_q(b_i)
         so, zo = self.scalar_q(op.outputs[0])
         left_shift = 20
+        if t == "INT16":
+            # general-scale path of the 16-bit kernel (the legacy path needs all three scales to be powers of two)
+            left_shift = 15
+            if all(abs(math.log2(float(v)) - round(math.log2(float(v)))) < 1e-9 for v in (s1, s2, so)):
+                raise Unsupported("int16 add/sub with power-of-two scales (legacy kernel)")
         twice_max = 2.0 * max(float(np.float32(s1)), float(np.float32(s2)))
         m1, sh1 = quantize_multiplier(float(np.float32(s1)) / twice_max)
         m2, sh2 = quantize_multiplier(float(np.float32(s2)) / twice_max)
@@ -319,7 +341,9 @@ class Interp:
         raw = sa - sb if sub else sa + sb
         y = mbqm(raw, mo, sho) + zo
         lo, hi = act_range(op.options[1].get("FusedActivationFunction", 0), self.m.tensors[op.outputs[0]].type, so, zo)
-        self.put(op.outputs[0], np.clip(y, lo, hi), 0, [a_i, b_i])
+        # 16-bit: the datapath model rounds the rescaled operand once where the reference rounds twice; they differ by one step
+        # about once in 10^4 elements on the unchanged tree, so this family is compared within +-1 (DESIGN Appendix A, rung 2)
+        self.put(op.outputs[0], np.clip(y, lo, hi), 1 if t == "INT16" else 0, [a_i, b_i])
 
     def op_SUB(self, op):
         self.op_ADD(op, sub=True)
@@ -328,12 +352,14 @@ class Interp:
         a_i, b_i = op.inputs
         a, b = self.get(a_i), self.get(b_i)
         t = self.m.tensors[a_i].type
-        if t not in ("INT8", "UINT8"):
+        if t not in ("INT8", "UINT8", "INT16"):
             raise Unsupported("mul " + t)
         s1, z1 = self.scalar_q(a_i)
         s2, z2 = self.scalar_q(b_i)
         so, zo = self.scalar_q(op.outputs[0])
-        real = float(np.float64(np.float32(s1)) * np.float64(np.float32(s2)) / np.float64(np.float32(so)))
+        # the reference evaluates `input1 scale * input2 scale / output scale` on float operands, i.e. in single precision,
+        # before it widens the result to double (visible in the low bits of the multiplier, and with 16-bit data in the output)
+        real = float(np.float32(np.float32(np.float32(s1) * np.float32(s2)) / np.float32(so)))
         m_, s_ = quantize_multiplier(real)
         y = mbqm((a - z1) * (b - z2), m_, s_) + zo
         lo, hi = act_range(op.options[1].get("FusedActivationFunction", 0), self.m.tensors[op.outputs[0]].type, so, zo)
